@@ -17,6 +17,7 @@ var (
 	flagVerifDir = flag.String("mc.dir", "/verif", "verif directory")
 	flagScenario = flag.String("mc.scenario", "", "only scenarios whose name contains this")
 	flagKillDir  = flag.String("mc.killdir", "", "store directory of the kill child")
+	flagChildSc  = flag.String("mc.childscenario", "", "scenario (JSON) of the run/recover child")
 	flagBound    = flag.Int("mc.bound", -1, "override the deviation bound (explore1)")
 	flagNoPrune  = flag.Bool("mc.noprune", false, "disable pruning (explore1)")
 )
@@ -155,4 +156,12 @@ func TestKillChild(t *testing.T) {
 		t.Skip("not a kill child")
 	}
 	killChildMain()
+}
+
+// TestRunChild is the child process of the real-kill cross-validation of C09/C10.
+func TestRunChild(t *testing.T) {
+	if *flagRole != "runchild" && *flagRole != "recoverchild" {
+		t.Skip("not a run child")
+	}
+	runChildMain(*flagRole, *flagKillDir, *flagChildSc)
 }
